@@ -27,6 +27,9 @@ pub enum Dist {
     Masked(u64),
     /// small values plus a single large outlier (the top levels have a single set bit)
     Outlier,
+    /// small values, and with probability 1/(2 + rarity) a value with a high bit set: the top levels are sparse with
+    /// irregular spacing, so long vectors have several long select superblocks on those levels
+    Rare(u8),
 }
 
 #[derive(Clone, Debug, Serialize, Deserialize, Hash, PartialEq, Eq)]
@@ -72,6 +75,13 @@ impl Vals {
                             }
                         }
                         Dist::Masked(m) => pick(rng.next()) & *m,
+                        Dist::Rare(r) => {
+                            if rng.below(2 + *r as u64) == 0 {
+                                ((limit >> 1) as u64) | rng.below(4)
+                            } else {
+                                rng.below(4)
+                            }
+                        }
                         Dist::Outlier => {
                             if i == (*seed as usize) % (*len).max(1) {
                                 (limit - 1) as u64
@@ -419,9 +429,9 @@ impl Prop for C04 {
         ];
         let wm_recipe = (len.clone(), 1u8..=16, dist.clone(), any::<u64>()).prop_map(|(l, w, d, s)| Vals::Recipe(l, w, d, s));
         let core_recipe = (len, 1u8..=64, dist, any::<u64>()).prop_map(|(l, w, d, s)| Vals::Recipe(l.min(300), w, d, s));
-        let big = (90_000usize..150_000, 2u8..=12, any::<u64>()).prop_map(|(l, w, s)| Vals::Recipe(l, w, Dist::Outlier, s));
+        let big = (prop_oneof![90_000usize..150_000, 150_000usize..420_000], 3u8..=12, any::<u64>(), prop_oneof![Just(Dist::Outlier), (20u8..120).prop_map(Dist::Rare), (20u8..120).prop_map(Dist::Rare)]).prop_map(|(l, w, s, d)| Vals::Recipe(l, w, d, s));
         let explicit = proptest::collection::vec(prop_oneof![0u64..4, 0u64..256, 0u64..65536], 0..60).prop_map(Vals::Explicit);
-        let vals = prop_oneof![60 => wm_recipe, 20 => core_recipe, 20 => explicit, 1 => big];
+        let vals = prop_oneof![120 => wm_recipe, 40 => core_recipe, 40 => explicit, 3 => big];
         (vals, 0u8..5, proptest::collection::vec(any::<u64>(), 0..6), proptest::collection::vec(any::<u16>(), 0..12))
             .prop_map(|(vals, src, extra_vals, extra_idx)| Case { vals, src, extra_vals, extra_idx })
             .boxed()
@@ -494,6 +504,7 @@ impl Prop for C04 {
         rep.class_if(n >= 2 && distinct == 1, "single-symbol");
         rep.class_if(distinct >= 2 && (distinct as u64) < max.saturating_add(1), "missing-symbols");
         rep.class_if(n >= 83_521, "len>=83521(long select superblocks possible)");
+        rep.class_if(n >= 250_000 && matches!(case.vals, Vals::Recipe(_, _, Dist::Rare(_), _)), "len>=250000+rare-high-bit(several long superblocks)");
         if n >= 2 && distinct >= 2 {
             rep.nontrivial(key);
         }
@@ -511,8 +522,11 @@ impl Prop for C04 {
                 return Err(format!("no generated case reached class {}", c));
             }
         }
-        if tier == Tier::Thorough && classes.get("len>=83521(long select superblocks possible)").copied().unwrap_or(0) == 0 {
-            return Err("no long vector generated".into());
+        let _ = tier;
+        for c in ["len>=83521(long select superblocks possible)", "len>=250000+rare-high-bit(several long superblocks)"] {
+            if classes.get(c).copied().unwrap_or(0) == 0 {
+                return Err(format!("no generated case reached class {}", c));
+            }
         }
         Ok(())
     }
